@@ -185,8 +185,10 @@ def run_shard(params, rec):
         d2 = jitlib.diff_outcomes(nofault, res, spec)
         rec.count("resumes_compared")
         if d2 is not None:
-            rec.fail("%s: resumed run differs from the run without fault (%s, %s%s)" % (
-                backend, d2[0], spec.family, ", fault in a delay slot" if in_slot else ""),
+            key = "%s: resumed run differs from the run without fault (%s, %s)" % (backend, d2[0], spec.family)
+            if in_slot:
+                key = "%s: a fault in a branch delay slot loses the pending branch on resume" % backend
+            rec.fail(key,
                      "%s %s: after resuming at %s: %s %s" % (spec.mname, backend, wit["faulting"], d2[0], d2[1]),
                      dict(wit, diff=d2, nofault=nofault.summary(spec), resumed=res.summary(spec)))
             continue
